@@ -1,0 +1,5 @@
+//go:build !verif
+
+package datastore
+
+func (d *Datastore) verifSyncMsgDone() {}
